@@ -87,6 +87,7 @@ func main() {
 	n := fs.Int("n", 100000, "random cases")
 	exh := fs.Int("exh", 7, "exhaustive length")
 	workers := fs.Int("workers", 8, "workers")
+	life := fs.Int("life", 0, "requests of the decoder life-cycle monitor (c05, c06)")
 	out := fs.String("out", "", "result file")
 	last := fs.String("last", "", "last-case file")
 	fs.Parse(os.Args[2:])
@@ -94,8 +95,14 @@ func main() {
 	switch sub {
 	case "c05":
 		runC05(*seed, *n, *exh, *workers)
+		if *life > 0 {
+			runLife(*seed, *life)
+		}
 	case "c06":
 		runC06(*seed, *n)
+		if *life > 0 {
+			runLife(*seed+1, *life)
+		}
 	case "c12":
 		runC12(*seed, *n, *workers)
 	case "c19":
